@@ -428,12 +428,20 @@ func Truncate(name string, size int64) error {
 		err = errno("truncate", name, e)
 	case n.dir:
 		err = errno("truncate", name, syscall.EISDIR)
+	case size < 0:
+		err = errno("truncate", name, syscall.EINVAL)
+	case size > MaxFileSize:
+		err = errno("truncate", name, syscall.EFBIG)
 	default:
 		n.data = resize(n.data, size)
 	}
 	f.end(op, err)
 	return err
 }
+
+// MaxFileSize is the maximum file size of the simulated file system (writes beyond it fail with
+// EFBIG, as on a real file system; the real limits are larger, the behaviour is the same).
+const MaxFileSize = 1 << 28
 
 func resize(b []byte, size int64) []byte {
 	if int64(len(b)) >= size {
@@ -692,6 +700,13 @@ func (h *File) Write(b []byte) (int, error) {
 			h.off = int64(len(h.n.data))
 		}
 		end := h.off + int64(nw)
+		if end > MaxFileSize || end < 0 {
+			// like a file system whose maximum file size is exceeded (a writer that seeks to a
+			// garbage offset): nothing is written
+			err := errno("write", h.name, syscall.EFBIG)
+			f.end(op, err)
+			return 0, err
+		}
 		if int64(len(h.n.data)) < end {
 			h.n.data = resize(h.n.data, end)
 		}
@@ -830,6 +845,14 @@ func (h *File) Truncate(size int64) error {
 	}
 	if !h.wr {
 		err = errno("truncate", h.name, syscall.EINVAL)
+		f.end(op, err)
+		return err
+	}
+	if size < 0 || size > MaxFileSize {
+		err = errno("truncate", h.name, syscall.EFBIG)
+		if size < 0 {
+			err = errno("truncate", h.name, syscall.EINVAL)
+		}
 		f.end(op, err)
 		return err
 	}
